@@ -67,7 +67,7 @@ pub fn gen_case(rng: &mut Rng, i: usize, ports: &Ports) -> HttpCase {
             (n, ip)
         }
         "ipv4" => {
-            let ip = Ipv4Addr::new(127, 99, (i >> 8) as u8, ((i & 0xFF) as u8).clamp(1, 254));
+            let ip = netkit::uniq_ip(99, i as u32);
             (ip.to_string(), IpAddr::V4(ip))
         }
         _ => ("[::1]".to_string(), IpAddr::V6(Ipv6Addr::LOCALHOST)),
